@@ -162,9 +162,11 @@ def parse_obs(o):
 def direct_oracle(prog, obs):
     """None | (signature, text).  Independent of the Coq model."""
     names = [n for n, _ in prog]
+    kind, offs = parse_obs(obs)
+    if kind == "ODirty":
+        return ("rejected-but-laid-out", "compute_layouts rejected the definitions but left field offsets written in the program")
     if len(set(names)) != len(names):
         return None                     # duplicate definitions: not a C translation unit; tie only
-    kind, offs = parse_obs(obs)
     defs = dict(prog)
     # by-value cycle?
     cyclic, undefined = False, False
@@ -465,8 +467,8 @@ def run(ctx):
         "Model/SysV.v states what a C compiler for x86-64 System V computes: checked against clang on generated translations",
     ]
     thorough = ctx.tier == "thorough"
-    n_cases = 260 if not thorough else 5000
-    seeds = [ctx.seed] if not thorough else [ctx.seed, ctx.seed + 1000, ctx.seed + 2000]
+    n_cases = 260 if not thorough else 8000
+    seeds = [ctx.seed] if not thorough else [ctx.seed + 1000 * k for k in range(5)]
     replay_prog = None
     if getattr(ctx, "replay_file", None):
         rp = json.load(open(ctx.replay_file)).get("replay", {})
@@ -505,11 +507,14 @@ def run(ctx):
                 return
             outs.append("\n".join(l for l in o.splitlines() if l.startswith("#") or "\tcorpus" in l))
         for k, sd in enumerate(seeds):
-            cmd = [paths["hx_layout"], "--seed", str(sd), "--cases", str(n_cases), "--needles", needles]
+            big = thorough and k == 4
+            cmd = [paths["hx_layout"], "--seed", str(sd), "--cases", str(n_cases // 4 if big else n_cases), "--needles", needles]
             if prof == "dev" and k == 0:
                 cmd.append("--api-probe")
             if k > 0 or replay_prog:
                 cmd.append("--no-grids")
+            if big:         # one thorough seed with large graphs: up to 40 structs (120 with probes), 16 fields
+                cmd += ["--max-structs", "40", "--max-fields", "16"]
             rc, o = vlib.sh(cmd, timeout=1200)
             if rc != 0:
                 ctx.violation("hx_layout-crash", "layout harness crashed (panic escaped catch_unwind / abort inside layout?)",
@@ -655,8 +660,8 @@ def run(ctx):
             cand.append((comp, e))
     grids = [c for c in cand if c[1]["cls"].startswith("grid")]
     rnd = [c for c in cand if not c[1]["cls"].startswith("grid")]
-    n_spec = 150 if not thorough else 2000
-    n_clang = 60 if not thorough else 1200
+    n_spec = 150 if not thorough else 5000
+    n_clang = 60 if not thorough else 4000
     spec_set = grids + rnd[:n_spec]
     spec_pairs = []
     for comp, e in spec_set:
